@@ -16,17 +16,12 @@ cache does not refine `QSpec` there.  What does hold:
      and the live content they leave do not depend on which expired items were already removed —
      if one queue is the other without some items expired at `now`, both calls return the same, and
      the queues afterwards are again related in that way.
- (3) (NOT proved here — the statement these two are the ingredients of.)  Let the reference take
-     the number of each pushed item from the cache's answer (`push` with the number as an input
-     instead of `nextNum`), and relate the states by "for every prefix the cache's queue is the
-     reference's queue without some items that are expired at the clock" (the queue analogue of
-     `Refines`, which tolerates physically removed expired rows).  Then for EVERY history of the
-     covered calls under `policy = none` — any `cull_limit`, any ttl — every `pull` / `peek` /
-     key-addressed call returns what that reference returns: live items come out exactly once and
-     in push order per side, whatever the lazy cull did.  The proof is `qr_pull_step` /
-     `qr_peek_step` with (2) in place of the exact list equality, `qr_push_step` with (1) in place
-     of `QOk.quiet`, and `qr_frame` with its `quiet` case dropped (an expired queue row may vanish
-     in a `set` / `add` / `incr`); `QOk` has to be split into the part used there and `quiet`.
+ (3) The history-level statement these two are the ingredients of is proved in
+     DC/Properties/C10_LooseRefine.lean (`qrun_loose`): the reference takes the number of each
+     pushed item from the cache's answer (`QSpec.pushAt`), the states are related by "for every
+     prefix the cache's queue is the reference's queue `Thinned`" (`QLoose`, the queue analogue of
+     `Refines`), and for EVERY history of the covered calls under `policy = none` — any
+     `cull_limit`, any ttl ≥ 0 — every call returns what that reference returns.
 -/
 import DC.Properties.C10_History
 
